@@ -8,6 +8,7 @@ import (
 	"fmt"
 	"os"
 	"strings"
+	"sync"
 	"testing"
 	"testing/synctest"
 	"time"
@@ -539,6 +540,65 @@ func adChainAndEntriesSyncOf(name string, so ...dagsync.Option) *sched.Scenario 
 	}
 }
 
+// N12: a subscriber that learns latest-synced values from the application
+// (WithLastKnownSync), where the application records what its block hook has
+// seen, so that by the end of a sync the callback already names the head: the
+// sync is still announced to the listeners, once, with its count.
+func lastKnownCallbackCatchesUp() *sched.Scenario {
+	name := "N12-last-known-sync-callback-names-the-head-by-the-end-of-the-sync"
+	return &sched.Scenario{Name: name,
+		Setup: func(e *sched.Exec) ([]sched.Thread, func()) {
+			var mu sync.Mutex
+			var newest cid.Cid
+			so := []dagsync.Option{dagsync.WithLastKnownSync(func(peer.ID) (cid.Cid, bool) {
+				mu.Lock()
+				defer mu.Unlock()
+				return newest, newest.Defined()
+			})}
+			w := schedfx.New(e, schedfx.Options{Pubs: 1, ChainLen: 3, SubOpts: so})
+			p, ch := w.Pubs[0], w.Chains[0]
+			mu.Lock()
+			newest = ch.Cids[0]
+			mu.Unlock()
+			gate := w.HookGate
+			w.HookGate = func(h syncfx.HookCall) {
+				// the application's own bookkeeping: the newest advertisement of
+				// the chain it has been handed
+				mu.Lock()
+				if ch.Index(h.Cid) > ch.Index(newest) {
+					newest = h.Cid
+				}
+				mu.Unlock()
+				if gate != nil {
+					gate(h)
+				}
+			}
+			p.Publisher.SetRoot(ch.Cids[2])
+			return []sched.Thread{{Name: "X", Fn: func() {
+				e.Log("X call sync")
+				_, err := w.Sub.SyncAdChain(context.Background(), p.AddrInfo())
+				e.Log("X ret sync err=%v", err)
+			}}}, finish(e, w, nil)
+		},
+		Check: func(e *sched.Exec) []sched.Finding {
+			out := basics(e, name, []string{"X"})
+			f, _ := e.Data.(*final)
+			if f == nil || len(out) > 0 {
+				return out
+			}
+			for _, l := range e.Obs() {
+				if strings.HasPrefix(l, "X ret ") && !strings.HasSuffix(l, "err=<nil>") {
+					return append(out, sched.Finding{Sig: name + ":sync-failed", Msg: l})
+				}
+			}
+			if fmt.Sprint(f.setup) != "[pub0[2] count=2]" {
+				out = append(out, sched.Finding{Sig: name + ":notification-with-wrong-count-or-missing", Msg: fmt.Sprintf("the listener received %v, want [pub0[2] count=2]", f.setup)})
+			}
+			return out
+		},
+	}
+}
+
 // N3: an announce-triggered sync that fails: exactly one notification, with the error.
 func failingAnnounce() *sched.Scenario {
 	name := "N3-failing-announce-sync"
@@ -877,7 +937,7 @@ func longStall(t *testing.T, r *vp.Recorder, n int) {
 
 func TestCheck(t *testing.T) {
 	r := vp.New("C14", "model_checking",
-		"scenarios on the real subscriber built with the instrumentation overlay (gated in-memory publishers, chains of 3 signed ads): N1 two publishers synced by two threads with a reading and a never-reading listener; N2 two successive explicit syncs of one publisher while a listener registers and cancels at scheduler-chosen moments and a reader polls (checking the latest-synced value at the moment each event arrives); N3 an announce-triggered sync with a failing block request; N4 an explicit / an announce-triggered sync racing with Close while a listener registered beforehand reads only at the end; N5 explicit syncs of two publishers and a failing announce-triggered sync (three notifications in flight); N6 an announce-triggered and an explicit sync (own scoped hook) of one publisher overlapping, each notification's count compared with the hook calls of its own sync; N9 an ad-chain sync and an entries sync of one publisher by two threads (the notification's count is that of the ad-chain sync); N10 the same on a subscriber that syncs in segments of one advertisement; N11 a SyncOneEntry of a publisher whose handler was removed overlapping an ad-chain sync of that publisher; N8 an explicit sync whose caller cancels its context from inside the block hook (at the newest / at the oldest block); N7 one thread registering a listener, syncing, registering a second one, syncing again (registration precedes the sync by program order). Outside the scheduler: one listener that never reads and one that does, 150 (thorough 600) sequential syncs, each of which must return and reach the reader, and the backlog must arrive complete and in order in the end. All interleavings at the scheduling points (locks, atomics, channel operations of OnSyncFinished / cancel / the distributor, selects, spawns, requests, hook calls, observations) up to the preemption bound. states = distinct decision states; transitions = scheduling steps; traces = executions of the real code.",
+		"scenarios on the real subscriber built with the instrumentation overlay (gated in-memory publishers, chains of 3 signed ads): N1 two publishers synced by two threads with a reading and a never-reading listener; N2 two successive explicit syncs of one publisher while a listener registers and cancels at scheduler-chosen moments and a reader polls (checking the latest-synced value at the moment each event arrives); N3 an announce-triggered sync with a failing block request; N4 an explicit / an announce-triggered sync racing with Close while a listener registered beforehand reads only at the end; N5 explicit syncs of two publishers and a failing announce-triggered sync (three notifications in flight); N6 an announce-triggered and an explicit sync (own scoped hook) of one publisher overlapping, each notification's count compared with the hook calls of its own sync; N9 an ad-chain sync and an entries sync of one publisher by two threads (the notification's count is that of the ad-chain sync); N10 the same on a subscriber that syncs in segments of one advertisement; N11 a SyncOneEntry of a publisher whose handler was removed overlapping an ad-chain sync of that publisher; N12 an explicit sync on a subscriber with a WithLastKnownSync callback that names the head by the time the sync ends; N8 an explicit sync whose caller cancels its context from inside the block hook (at the newest / at the oldest block); N7 one thread registering a listener, syncing, registering a second one, syncing again (registration precedes the sync by program order). Outside the scheduler: one listener that never reads and one that does, 150 (thorough 600) sequential syncs, each of which must return and reach the reader, and the backlog must arrive complete and in order in the end. All interleavings at the scheduling points (locks, atomics, channel operations of OnSyncFinished / cancel / the distributor, selects, spawns, requests, hook calls, observations) up to the preemption bound. states = distinct decision states; transitions = scheduling steps; traces = executions of the real code.",
 		"cooperative scheduling at synchronization operations; every multi-case select is a priority select whose first-tried case is a scheduler decision (a non-default first case costs one unit of the bound, like a preemption); at most 3 listeners and 2 publishers",
 		"in N1 and N2 the chain blocks are already in the destination store (they are reported but not requested), so each sync makes only the head request",
 		"'registered before the sync finished' is judged by real-time order in the observation log: registration returned before the sync was invoked, cancel invoked after it returned",
@@ -891,7 +951,7 @@ func TestCheck(t *testing.T) {
 	if vp.Thorough() {
 		bound = 3
 	}
-	scs := []*sched.Scenario{registerThenSync(), callerCancelsFromHook(1), callerCancelsFromHook(2), adChainAndEntriesSync(), adChainAndEntriesSyncSegmented(), adChainAndOneEntrySyncHandlerless(), syncVsClose("explicit"), syncVsClose("announce"), overlappingSyncsOfOnePublisher(), threeInFlight(), twoPublishers(), registerDuringSyncs(), failingAnnounce()}
+	scs := []*sched.Scenario{registerThenSync(), callerCancelsFromHook(1), callerCancelsFromHook(2), adChainAndEntriesSync(), adChainAndEntriesSyncSegmented(), adChainAndOneEntrySyncHandlerless(), lastKnownCallbackCatchesUp(), syncVsClose("explicit"), syncVsClose("announce"), overlappingSyncsOfOnePublisher(), threeInFlight(), twoPublishers(), registerDuringSyncs(), failingAnnounce()}
 	r.Bounds(map[string]any{"preemption_bound": bound, "scenarios": len(scs)})
 	budget := 0.0
 	if v := os.Getenv("VERIF_BUDGET_S"); v != "" {
